@@ -374,16 +374,43 @@ type memConn struct {
 	in  *bytes.Reader
 	Out bytes.Buffer
 	Log []string
+	// Events, when set, receives every deadline call and the first write, in order
+	Events *[]string
 }
 
-func (m *memConn) Read(p []byte) (int, error)         { return m.in.Read(p) }
-func (m *memConn) Write(p []byte) (int, error)        { return m.Out.Write(p) }
-func (m *memConn) Close() error                       { m.Log = append(m.Log, "close"); return nil }
-func (m *memConn) LocalAddr() net.Addr                { return &net.TCPAddr{} }
-func (m *memConn) RemoteAddr() net.Addr               { return &net.TCPAddr{} }
-func (m *memConn) SetDeadline(t time.Time) error      { return nil }
-func (m *memConn) SetReadDeadline(t time.Time) error  { return nil }
-func (m *memConn) SetWriteDeadline(t time.Time) error { return nil }
+func (m *memConn) Read(p []byte) (int, error) { return m.in.Read(p) }
+func (m *memConn) Write(p []byte) (int, error) {
+	if m.Events != nil {
+		*m.Events = append(*m.Events, "write")
+	}
+	return m.Out.Write(p)
+}
+func (m *memConn) Close() error         { m.Log = append(m.Log, "close"); return nil }
+func (m *memConn) LocalAddr() net.Addr  { return &net.TCPAddr{} }
+func (m *memConn) RemoteAddr() net.Addr { return &net.TCPAddr{} }
+func (m *memConn) SetDeadline(t time.Time) error {
+	m.note("SetDeadline", t)
+	return nil
+}
+func (m *memConn) SetReadDeadline(t time.Time) error {
+	m.note("SetReadDeadline", t)
+	return nil
+}
+func (m *memConn) SetWriteDeadline(t time.Time) error {
+	m.note("SetWriteDeadline", t)
+	return nil
+}
+
+// note records a deadline call in Events (when the caller asked for events).
+func (m *memConn) note(what string, t time.Time) {
+	if m.Events != nil {
+		if t.IsZero() {
+			*m.Events = append(*m.Events, what+"(none)")
+		} else {
+			*m.Events = append(*m.Events, what+"(armed)")
+		}
+	}
+}
 
 type hijackWriter struct {
 	conn   *memConn
@@ -410,6 +437,19 @@ func RunHTTPUpgrader(u ws.HTTPUpgrader, data []byte) (out []byte, hsk ws.Handsha
 	w := &hijackWriter{conn: conn, header: http.Header{}}
 	_, _, hsk, err = u.Upgrade(req, w)
 	return conn.Out.Bytes(), hsk, err, false
+}
+
+// RunHTTPUpgraderEvents is RunHTTPUpgrader with the connection's deadline calls and writes
+// appended to events (into which the caller's callbacks write as well).
+func RunHTTPUpgraderEvents(u ws.HTTPUpgrader, data []byte, events *[]string) (out []byte, hsk ws.Handshake, err error) {
+	req, perr := http.ReadRequest(bufio.NewReader(bytes.NewReader(data)))
+	if perr != nil {
+		return nil, hsk, perr
+	}
+	conn := &memConn{in: bytes.NewReader(nil), Events: events}
+	w := &hijackWriter{conn: conn, header: http.Header{}}
+	_, _, hsk, err = u.Upgrade(req, w)
+	return conn.Out.Bytes(), hsk, err
 }
 
 // streamConn is a net.Conn over any reader (the transport decides how reads are cut).
